@@ -57,6 +57,9 @@ structure Entry (α : Type) where
   posPost : List (Key × α)
   cashPost : α
   cashPre : α              -- cash of the pre-trade snapshot (after the accrual and the marking)
+  posPre : List (Key × α)       -- positions of the pre-trade snapshot
+  marginPre : List (Key × α)    -- margins posted in the pre-trade snapshot
+  marginPost : List (Key × α)   -- margins posted in the post-trade snapshot
 
 structure Broker (α : Type) where
   ex : Exchange α := {}
@@ -316,7 +319,10 @@ def rebalanceExec (w : World α) (r : Rebal α) (interest nlvPre : α) (trades :
       let e : Entry α := { time := r.time, interest := interest, nlvPre := nlvPre, nlvPost := nlvPost,
                            trades := trades, target := cleanAlloc w r.target,
                            posPost := b4.held.map (fun k => (k, b4.pos k)), cashPost := b4.cash,
-                           cashPre := b2.cash }
+                           cashPre := b2.cash,
+                           posPre := b2.held.map (fun k => (k, b2.pos k)),
+                           marginPre := b2.held.map (fun k => (k, b2.margin k)),
+                           marginPost := b4.held.map (fun k => (k, b4.margin k)) }
       ({ b4 with record := b4.record ++ [e] }, .ok ())
 
 /-- `Broker.rebalance`: accrue, snapshot, build all trades, then execute them -/
